@@ -65,10 +65,15 @@ def operations():
     for route in sorted(handler.ROUTE_DECLARATIONS):
         for method in ('GET', 'PUT', 'POST', 'DELETE'):
             ops.append((route, method))
+    # the same operation on stored state that makes it a no-op: PUT of a
+    # trait that already exists (marked by a third element)
+    ops.append(('/traits/{name}', 'PUT', 'existing'))
     return ops
 
 
-def url_of(route, method):
+def url_of(route, method, variant=None):
+    if variant == 'existing' and route == '/traits/{name}':
+        return '/traits/' + T1
     url = route
     for a, b in SUBS.items():
         url = url.replace(a, b)
@@ -77,14 +82,15 @@ def url_of(route, method):
     return (url or '/') + QUERY.get((route, method), '')
 
 
-def do(route, method, token, roles, version='1.39'):
+def do(route, method, token, roles, version='1.39', variant=None):
     body = BODIES.get((route, method))
     if body is None and method in ('PUT', 'POST'):
         body = {}
     if route == '/traits/{name}' and method == 'PUT':
         body = None
-    return app.call(method, url_of(route, method), copy.deepcopy(body),
-                    version=version, token=token, roles=roles)
+    return app.call(method, url_of(route, method, variant),
+                    copy.deepcopy(body), version=version, token=token,
+                    roles=roles)
 
 
 def allowed_formula(route, method, admin, service, reader, same):
@@ -100,7 +106,9 @@ def fam_callers(version='1.39'):
 
     def path(ctx):
         app.setup()
-        route, method = ops[symex.choose(len(ops))]
+        op = ops[symex.choose(len(ops))]
+        route, method = op[0], op[1]
+        variant = op[2] if len(op) > 2 else None
         if version == 'sym':
             app.sym_minor(ctx)
         has_token = ctx.bool('token')
@@ -119,10 +127,10 @@ def fam_callers(version='1.39'):
         # reference: what an administrator with the service role gets
         with c14.world(ctx) as w0:
             ref = do(route, method, 'admin:proj', 'admin,service,reader',
-                     version)
+                     version, variant)
         with c14.world(ctx) as w:
             pre = w.dump()
-            r = do(route, method, tok, roles, version)
+            r = do(route, method, tok, roles, version, variant)
             post = w.dump()
         is_root = route in ('/', '')
         declared = method in handler.ROUTE_DECLARATIONS[route]
@@ -198,8 +206,8 @@ def with_override(name, check_str, fn):
 def fam_overrides(lo, hi):
     rules = documented_rules()[lo:hi]
     ops = [o for o in operations()
-           if o[1] in handler.ROUTE_DECLARATIONS[o[0]] and o[0] not in
-           ('/', '')]
+           if len(o) == 2 and o[1] in handler.ROUTE_DECLARATIONS[o[0]] and
+           o[0] not in ('/', '')]
 
     def path(ctx):
         app.setup()
